@@ -33,3 +33,5 @@ impl core::convert::From<core::str::Utf8Error> for anyhow::Error {
 /// str::from_utf8: Ok exactly for valid UTF-8, the same bytes
 pub assume_specification<'a>[ str::from_utf8 ](v: &'a [u8]) -> (r: core::result::Result<&'a str, core::str::Utf8Error>)
     ensures match r { Ok(s) => strb(s) == v@ && is_utf8(v@), Err(_) => !is_utf8(v@) };
+/// Chars::count: the number of characters (nothing is said about how it relates to the BYTE length: at most it)
+pub assume_specification<'a>[ <core::str::Chars<'a> as core::iter::Iterator>::count ](c: core::str::Chars<'a>) -> (r: usize);
